@@ -7,6 +7,7 @@ import (
 	"fmt"
 	"go/constant"
 	"go/token"
+	"go/types"
 	"sort"
 	"strings"
 
@@ -16,7 +17,11 @@ import (
 // exprSig renders a value as an expression tree that ignores SSA register
 // names and the identity of loop variables: loads become field names, invokes
 // method names.  Used to compare "the same quantity" computed at two sites.
-func exprSig(v ssa.Value, depth int) string {
+func exprSig(v ssa.Value, depth int) string { return exprSigWith(v, depth, nil) }
+
+// exprSigWith: exprSig with the parameters in subst replaced by the given
+// values (the arguments of the call site under consideration).
+func exprSigWith(v ssa.Value, depth int, subst map[*ssa.Parameter]ssa.Value) string {
 	if depth > 8 {
 		return "…"
 	}
@@ -27,18 +32,18 @@ func exprSig(v ssa.Value, depth int) string {
 		}
 		return x.Value.ExactString()
 	case *ssa.Convert:
-		return exprSig(x.X, depth+1)
+		return exprSigWith(x.X, depth+1, subst)
 	case *ssa.ChangeType:
-		return exprSig(x.X, depth+1)
+		return exprSigWith(x.X, depth+1, subst)
 	case *ssa.MakeInterface:
-		return exprSig(x.X, depth+1)
+		return exprSigWith(x.X, depth+1, subst)
 	case *ssa.BinOp:
-		return "(" + exprSig(x.X, depth+1) + x.Op.String() + exprSig(x.Y, depth+1) + ")"
+		return "(" + exprSigWith(x.X, depth+1, subst) + x.Op.String() + exprSigWith(x.Y, depth+1, subst) + ")"
 	case *ssa.UnOp:
 		if x.Op == token.MUL {
-			return exprSig(x.X, depth+1)
+			return exprSigWith(x.X, depth+1, subst)
 		}
-		return x.Op.String() + exprSig(x.X, depth+1)
+		return x.Op.String() + exprSigWith(x.X, depth+1, subst)
 	case *ssa.FieldAddr:
 		_, f := fieldAddrInfo(x)
 		if f != nil {
@@ -47,9 +52,9 @@ func exprSig(v ssa.Value, depth int) string {
 	case *ssa.Field:
 		return ".#" + fmt.Sprint(x.Field)
 	case *ssa.IndexAddr:
-		return exprSig(x.X, depth+1) + "[" + exprSig(x.Index, depth+1) + "]"
+		return exprSigWith(x.X, depth+1, subst) + "[" + exprSigWith(x.Index, depth+1, subst) + "]"
 	case *ssa.Lookup:
-		return exprSig(x.X, depth+1) + "[" + exprSig(x.Index, depth+1) + "]"
+		return exprSigWith(x.X, depth+1, subst) + "[" + exprSigWith(x.Index, depth+1, subst) + "]"
 	case *ssa.Call:
 		if x.Call.IsInvoke() {
 			return x.Call.Method.Name() + "()"
@@ -57,23 +62,26 @@ func exprSig(v ssa.Value, depth int) string {
 		if sc := x.Call.StaticCallee(); sc != nil {
 			var a []string
 			for _, arg := range x.Call.Args {
-				a = append(a, exprSig(arg, depth+1))
+				a = append(a, exprSigWith(arg, depth+1, subst))
 			}
 			return fnName(sc) + "(" + strings.Join(a, ",") + ")"
 		}
 		if b, ok := x.Call.Value.(*ssa.Builtin); ok {
 			var a []string
 			for _, arg := range x.Call.Args {
-				a = append(a, exprSig(arg, depth+1))
+				a = append(a, exprSigWith(arg, depth+1, subst))
 			}
 			return b.Name() + "(" + strings.Join(a, ",") + ")"
 		}
 	case *ssa.Parameter:
+		if a := subst[x]; a != nil {
+			return exprSigWith(a, depth+1, nil)
+		}
 		return "param:" + x.Name()
 	case *ssa.FreeVar:
 		return "free:" + x.Name()
 	case *ssa.Extract:
-		return exprSig(x.Tuple, depth+1) + "#" + fmt.Sprint(x.Index)
+		return exprSigWith(x.Tuple, depth+1, subst) + "#" + fmt.Sprint(x.Index)
 	case *ssa.Phi:
 		return "phi:" + x.Comment
 	case *ssa.Global:
@@ -81,7 +89,7 @@ func exprSig(v ssa.Value, depth int) string {
 	case *ssa.Next:
 		return "next"
 	case *ssa.Slice:
-		return exprSig(x.X, depth+1) + "[:]"
+		return exprSigWith(x.X, depth+1, subst) + "[:]"
 	}
 	return fmt.Sprintf("%T", v)
 }
@@ -189,8 +197,19 @@ func init() {
 			gcs := c.MustFn("getChunkSize")
 			nw := c.MustFn("newWithChunkMode")
 			// --- builder
-			fn := c.MustFn("(*interim).writeDictsTermField")
-			key := fnName(fn) + "/getChunkSize"
+			// (the function of the builder that computes the chunk size, wherever that was moved to)
+			var fn *ssa.Function
+			var key string
+			for _, f := range c.fnsCalling("getChunkSize") {
+				if recv := f.Signature.Recv(); recv != nil && namedOf(recv.Type()) != nil && namedOf(recv.Type()).Obj().Name() == "interim" {
+					fn = f
+				}
+			}
+			if fn == nil {
+				r.undecided("builder/getChunkSize", "", "-", "no method of the builder calls getChunkSize")
+				fn = c.MustFn("(*interim).writeDictsTermField")
+			}
+			key = "(*interim).writeDictsTermField/getChunkSize"
 			for _, call := range callsOf(fn, "getChunkSize") {
 				var probs []string
 				a0, a1, a2 := chunkSizeArgs(&call.Call)
@@ -220,9 +239,8 @@ func init() {
 					probs = append(probs, "document-count argument is "+exprSig(a2, 0)+", not len(s.results)")
 				}
 				// cardinality of the bitmap handed to writePostings
-				wp := callsOf(fn, "writePostings")
-				card, ok := a1.(*ssa.Call)
-				if !ok || card.Call.StaticCallee() == nil || card.Call.StaticCallee().Name() != "GetCardinality" || len(wp) != 1 || card.Call.Args[0] != argOfType(&wp[0].Call, roaringBitmapPtr) {
+				card, ok := c.traceParamUp(a1).(*ssa.Call)
+				if !ok || card.Call.StaticCallee() == nil || card.Call.StaticCallee().Name() != "GetCardinality" || !c.reachesWritePostings(card.Parent(), card.Call.Args[0], 0) {
 					probs = append(probs, "cardinality argument is not GetCardinality() of the bitmap that writePostings serialises")
 				}
 				probs = append(probs, bothEncodersResized(fn, call)...)
@@ -233,8 +251,17 @@ func init() {
 				}
 			}
 			// --- merger
-			fn = c.MustFn("prepareNewTerm")
-			key = fnName(fn) + "/getChunkSize"
+			fn = nil
+			for _, f := range c.fnsCalling("getChunkSize") {
+				if recv := f.Signature.Recv(); recv == nil && c.entries().MERGE[topFn(f)] || fnName(f) == "prepareNewTerm" {
+					fn = f
+				}
+			}
+			if fn == nil {
+				r.undecided("merger/getChunkSize", "", "-", "no function of the merge path calls getChunkSize")
+				fn = c.MustFn("prepareNewTerm")
+			}
+			key = "prepareNewTerm/getChunkSize"
 			msw := c.MustFn("mergeSegmentBasesWriter")
 			mtw := c.MustFn("mergeToWriter")
 			for _, call := range callsOf(fn, "getChunkSize") {
@@ -248,13 +275,21 @@ func init() {
 				}
 				// card: phi accumulating Count() of lists opened with drops[idx]
 				okCard := false
-				if phi, ok := m1.(*ssa.Phi); ok {
+				cardWhy := "cardinality argument is not the sum of Count() of the postings lists opened with the per-segment drops"
+				if phi, ok := c.accumulatorOf(m1).(*ssa.Phi); ok {
 					for _, e := range phi.Edges {
 						if bin, ok := e.(*ssa.BinOp); ok && bin.Op == token.ADD && bin.X == ssa.Value(phi) {
 							if cnt, ok := bin.Y.(*ssa.Call); ok && cnt.Call.StaticCallee() != nil && fnName(cnt.Call.StaticCallee()) == "(*PostingsList).Count" {
 								if ex, ok := cnt.Call.Args[0].(*ssa.Extract); ok {
 									if plc, ok := ex.Tuple.(*ssa.Call); ok && plc.Call.StaticCallee() != nil && fnName(plc.Call.StaticCallee()) == "(*Dictionary).postingsListFromOffset" {
-										if strings.HasPrefix(exprSig(argOfType(&plc.Call, roaringBitmapPtr), 0), "param:drops[") {
+										// the list of segment k is opened with the drops of segment k
+										di, ok1 := sliceElemIndex(plc.Call.Args[0], "[]*"+rootPkgPath+".Dictionary")
+										xi, ok2 := sliceElemIndex(argOfType(&plc.Call, roaringBitmapPtr), dropsSliceType)
+										switch {
+										case !ok1 || !ok2:
+										case exprSig(di, 0) != exprSig(xi, 0):
+											cardWhy = "the cardinality counts the list of dictionary " + exprSig(di, 0) + " under the deletions of segment " + exprSig(xi, 0) + ": the chunk size is computed for another set of documents than is written"
+										default:
 											okCard = true
 										}
 									}
@@ -264,7 +299,7 @@ func init() {
 					}
 				}
 				if !okCard {
-					probs = append(probs, "cardinality argument is not the sum of Count() of the postings lists opened with the per-segment drops")
+					probs = append(probs, cardWhy)
 				}
 				probs = append(probs, bothEncodersResized(fn, call)...)
 				if len(probs) > 0 {
@@ -343,21 +378,49 @@ func init() {
 			// every division in a method of the postings iterator is a chunk index (wherever
 			// the navigation code is split): it divides by the list's chunkSize
 			nq := 0
-			for _, fn := range c.srcFns {
+			isIterMethod := func(fn *ssa.Function, typ string) bool {
 				recv := fn.Signature.Recv()
-				if recv == nil || namedOf(recv.Type()) == nil || namedOf(recv.Type()).Obj().Name() != "PostingsIterator" {
+				return recv != nil && namedOf(recv.Type()) != nil && namedOf(recv.Type()).Obj().Name() == typ
+			}
+			// helpers of the postings list that the iterator's methods call count once per call
+			uses := map[*ssa.Function]int{}
+			for _, fn := range c.srcFns {
+				if !isIterMethod(fn, "PostingsIterator") {
+					continue
+				}
+				uses[fn] = 1
+			}
+			for _, fn := range c.srcFns {
+				if !isIterMethod(fn, "PostingsIterator") {
+					continue
+				}
+				for _, b := range fn.Blocks {
+					for _, ins := range b.Instrs {
+						if call, ok := ins.(*ssa.Call); ok {
+							if sc := call.Call.StaticCallee(); sc != nil && sc.Blocks != nil && isIterMethod(sc, "PostingsList") && len(callsOf(sc, "getChunkSize")) == 0 {
+								uses[sc]++
+							}
+						}
+					}
+				}
+			}
+			for _, fn := range c.srcFns {
+				if uses[fn] == 0 {
 					continue
 				}
 				name := fnName(fn)
 				for _, b := range fn.Blocks {
 					for _, ins := range b.Instrs {
 						if bin, ok := ins.(*ssa.BinOp); ok && bin.Op == token.QUO {
-							nq++
-							key := name + "/chunk-index"
-							if exprSig(bin.Y, 0) == ".chunkSize" {
-								r.ok(key, name, c.pos(bin.Pos()), "chunk index = docNum / postings.chunkSize")
-							} else {
-								r.bad(key, name, c.pos(bin.Pos()), "chunk index divides by "+exprSig(bin.Y, 0)+", not by the list's chunkSize")
+							// (one obligation per navigation step that uses the quotient)
+							for u := 0; u < uses[fn]; u++ {
+								nq++
+								key := name + "/chunk-index"
+								if exprSig(bin.Y, 0) == ".chunkSize" {
+									r.ok(key, name, c.pos(bin.Pos()), "chunk index = docNum / postings.chunkSize")
+								} else {
+									r.bad(key, name, c.pos(bin.Pos()), "chunk index divides by "+exprSig(bin.Y, 0)+", not by the list's chunkSize")
+								}
 							}
 						}
 					}
@@ -648,6 +711,14 @@ func init() {
 			}
 			checkSort(fn, "s.FieldsInv")
 			mf := c.MustFn("mergeFields")
+			// (the union of the field names may be built in a helper mergeFields is split into)
+			if len(callsOfFull(mf, "sort.Strings")) == 0 {
+				for _, h := range staticCallees(mf) {
+					if c.inRoot(h) && h.Blocks != nil && len(callsOfFull(h, "sort.Strings")) > 0 {
+						mf = h
+					}
+				}
+			}
 			checkSort(mf, "fields")
 			key = "mergeFields/id-first"
 			okID := false
@@ -671,16 +742,12 @@ func init() {
 				r.bad(key, "mergeFields", c.pos(mf.Pos()), "the merged field list does not start with \"_id\"")
 			}
 			// location field ids in processDocument
-			pdoc := c.MustFn("(*interim).processDocument")
-			key = fnName(pdoc) + "/location-field-id"
+			// (anchored on the store of an interimLoc's fieldID, wherever the conversion of token
+			// locations sits: processDocument, a helper of it, or what it was split into)
+			key = "(*interim).processDocument/location-field-id"
 			okLoc := false
-			// the conversion of token locations sits in processDocument or in a helper it calls
-			locFns := []*ssa.Function{pdoc}
-			for _, sc := range staticCallees(pdoc) {
-				if c.inRoot(sc) && sc.Blocks != nil {
-					locFns = append(locFns, sc)
-				}
-			}
+			var pdoc *ssa.Function
+			locFns := c.srcFns
 			for _, lf := range locFns {
 				for _, b := range lf.Blocks {
 					for _, ins := range b.Instrs {
@@ -704,7 +771,7 @@ func init() {
 							case strings.Contains(sig, "phi:rangeindex"):
 								containing = true
 							default:
-								if p, isParam := stripConv(e).(*ssa.Parameter); isParam && lf != pdoc {
+								if p, isParam := stripConv(e).(*ssa.Parameter); isParam {
 									all, n := true, 0
 									for _, site := range c.callsTo(lf) {
 										n++
@@ -718,6 +785,7 @@ func init() {
 						}
 						if named && containing {
 							okLoc = true
+							pdoc = lf
 						}
 					}
 				}
@@ -725,7 +793,7 @@ func init() {
 			if okLoc {
 				r.ok(key, fnName(pdoc), c.pos(pdoc.Pos()), "location field id = containing field id, or getOrDefineField(FieldVal) when named")
 			} else {
-				r.bad(key, fnName(pdoc), c.pos(pdoc.Pos()), "a location's field id is no longer {containing field | named field}")
+				r.bad(key, "(*interim).processDocument", "-", "a location's field id is no longer {containing field | named field}")
 			}
 		},
 	})
@@ -805,44 +873,52 @@ func init() {
 		Doc:   "in the merger every document number handed to the encoders and bitmaps is newDocNums[next.Number()] (never the old number), location field ids are fieldsMap[loc.Field()]-1 with the merged map, doc values are re-added under newDocNums[seg][docNum] and only when that is not the dropped sentinel, and the parallel slices indexed by the iterator index (dicts, drops, newDocNums, segmentsInFocus) come from one setupActiveForField result",
 		Run: func(c *Ctx, scope string, r *Report) {
 			fn := c.MustFn("mergeTermFreqNormLocs")
-			isNew := func(v ssa.Value) bool {
-				s := exprSig(v, 0)
-				return s == "param:newDocNums[Number()]"
-			}
 			n := 0
-			for _, b := range fn.Blocks {
-				for _, ins := range b.Instrs {
-					call, ok := ins.(*ssa.Call)
-					if !ok || call.Call.StaticCallee() == nil {
-						continue
-					}
-					sc := call.Call.StaticCallee()
-					var doc ssa.Value
-					switch {
-					case fnName(sc) == "(*chunkedIntCoder).Add":
-						doc = call.Call.Args[1]
-					case sc.Name() == "Add" && sc.Signature.Recv() != nil && isRoaringBitmapPtr(sc.Signature.Recv().Type()):
-						doc = stripConv(call.Call.Args[1])
-					default:
-						continue
-					}
-					n++
-					key := fnName(fn) + "/" + fnName(sc)
-					if isNew(doc) {
-						r.ok(key, fnName(fn), c.pos(call.Pos()), "document number is newDocNums[next.Number()]")
-					} else {
-						r.bad(key, fnName(fn), c.pos(call.Pos()), "document number passed is "+exprSig(doc, 0)+", not the remapped newDocNums[next.Number()]")
+			nLocID, okLocID := 0, true
+			var tubPos token.Pos
+			// the term loop and the helpers it hands the posting to (their parameters are read as
+			// the arguments of the call)
+			c.withHelpers(fn, 2, func(f *ssa.Function, subst map[*ssa.Parameter]ssa.Value) {
+				for _, b := range f.Blocks {
+					for _, ins := range b.Instrs {
+						call, ok := ins.(*ssa.Call)
+						if !ok || call.Call.StaticCallee() == nil {
+							continue
+						}
+						sc := call.Call.StaticCallee()
+						var doc ssa.Value
+						switch {
+						case fnName(sc) == "(*chunkedIntCoder).Add":
+							doc = call.Call.Args[1]
+						case sc.Name() == "Add" && sc.Signature.Recv() != nil && isRoaringBitmapPtr(sc.Signature.Recv().Type()):
+							doc = stripConv(call.Call.Args[1])
+						case fnName(sc) == "totalUvarintBytes":
+							nLocID++
+							tubPos = call.Pos()
+							if exprSigWith(call.Call.Args[0], 0, subst) != "(param:fieldsMap[Field()]-1)" {
+								okLocID = false
+							}
+							continue
+						default:
+							continue
+						}
+						n++
+						key := fnName(f) + "/" + fnName(sc)
+						if sig := exprSigWith(doc, 0, subst); sig == "param:newDocNums[Number()]" {
+							r.ok(key, fnName(f), c.pos(call.Pos()), "document number is newDocNums[next.Number()]")
+						} else {
+							r.bad(key, fnName(f), c.pos(call.Pos()), "document number passed is "+sig+", not the remapped newDocNums[next.Number()]")
+						}
 					}
 				}
-			}
+			})
 			if n == 0 {
 				r.undecided(fnName(fn)+"/no-sites", fnName(fn), c.pos(fn.Pos()), "no encoder/bitmap Add found")
 			}
 			// location field id via the merged map
 			key := fnName(fn) + "/loc-field-id"
-			tub := callsOf(fn, "totalUvarintBytes")
-			if len(tub) == 1 && exprSig(tub[0].Call.Args[0], 0) == "(param:fieldsMap[Field()]-1)" {
-				r.ok(key, fnName(fn), c.pos(tub[0].Pos()), "location field id = fieldsMap[loc.Field()] - 1 (merged map)")
+			if nLocID == 1 && okLocID {
+				r.ok(key, fnName(fn), c.pos(tubPos), "location field id = fieldsMap[loc.Field()] - 1 (merged map)")
 			} else {
 				r.bad(key, fnName(fn), c.pos(fn.Pos()), "location field ids are not taken from the merged fieldsMap")
 			}
@@ -853,6 +929,16 @@ func init() {
 			for _, f := range c.fnsCalling("(*chunkedContentCoder).Add") {
 				if f.Parent() != nil && (c.entries().MERGE[topFn(f)] || strings.HasPrefix(fnName(f), "buildMergedDocVals$")) {
 					dvfn = f
+				}
+			}
+			// or a method with the visitor's signature (docNum uint64, terms []byte) error
+			// that the merge path hands to iterateAllDocValues as a method value
+			if dvfn == nil {
+				for _, f := range c.fnsCalling("(*chunkedContentCoder).Add") {
+					sig := f.Signature
+					if f.Parent() == nil && sig.Recv() != nil && sig.Params().Len() == 2 && sig.Params().At(0).Type().String() == "uint64" && isByteSlice(sig.Params().At(1).Type()) && !c.entries().BUILD[f] {
+						dvfn = f
+					}
 				}
 			}
 			key = "buildMergedDocVals/dv-remap"
@@ -882,9 +968,38 @@ func init() {
 						}
 					}
 					okShape := false
+					docParam := paramOfType(dvfn, "uint64")
 					if ld, ok := resolveCellLoad(c, arg).(*ssa.UnOp); ok && ld.Op == token.MUL {
-						if ia, ok := ld.X.(*ssa.IndexAddr); ok && stripConv(ia.Index) == ssa.Value(dvfn.Params[0]) && tableParam != nil && derivesFrom(c, ia.X, tableParam, 0) {
-							okShape = true
+						if ia, ok := ld.X.(*ssa.IndexAddr); ok && docParam != nil && stripConv(ia.Index) == ssa.Value(docParam) {
+							if tableParam != nil && derivesFrom(c, ia.X, tableParam, 0) {
+								okShape = true
+							}
+							// the table is a field of the visitor object: every store to that field is
+							// TABLES[i] of the remap tables handed to the function that makes the object
+							if fld, isLd := ia.X.(*ssa.UnOp); isLd && dvfn.Signature.Recv() != nil {
+								if fa, isFA := fld.X.(*ssa.FieldAddr); isFA && fa.X == ssa.Value(dvfn.Params[0]) {
+									owner, fv := fieldAddrInfo(fa)
+									if owner != nil && fv != nil {
+										stores := c.census().fieldStores[fieldKey{owner.Obj(), fv.Name()}]
+										okShape = len(stores) > 0
+										for _, st := range stores {
+											okSt := false
+											if eld, ok := st.val.(*ssa.UnOp); ok && eld.Op == token.MUL {
+												if eia, ok := eld.X.(*ssa.IndexAddr); ok {
+													for _, cp := range st.fn.Params {
+														if strings.HasSuffix(cp.Type().String(), "[][]uint64") && derivesFrom(c, eia.X, cp, 0) {
+															okSt = true
+														}
+													}
+												}
+											}
+											if !okSt {
+												okShape = false
+											}
+										}
+									}
+								}
+							}
 						}
 					}
 					if !okShape {
@@ -920,38 +1035,74 @@ func init() {
 				}
 			}
 			// parallel slices
+			// (anchored on the one call of setupActiveForField, wherever it was moved to; the users of
+			// its result are looked for in the whole merge path, a slice handed down as a parameter is
+			// followed back to the call it came from)
 			pm := c.MustFn("persistMergedRestField")
 			key = fnName(pm) + "/parallel-slices"
-			sa := callsOf(pm, "setupActiveForField")
+			var sa []*ssa.Call
+			for _, f := range c.fnsCalling("setupActiveForField") {
+				sa = append(sa, callsOf(f, "setupActiveForField")...)
+			}
 			if len(sa) != 1 {
 				r.undecided(key, fnName(pm), c.pos(pm.Pos()), "setupActiveForField call not found")
 			} else {
-				parts := tupleParts(sa[0])
+				set := newActiveSet(sa[0])
+				set.c = c
 				var probs []string
-				// results: 0 newDocNums, 1 drops, 2 dicts, 3 itrs, 4 segmentsInFocus
-				for _, call := range callsOf(pm, "buildMergedDocVals") {
-					a := call.Call.Args
-					if a[len(a)-2] != ssa.Value(parts[4]) || a[len(a)-1] != ssa.Value(parts[0]) {
+				const tablesType, dictsType = "[][]uint64", "[]*" + rootPkgPath + ".Dictionary"
+				// the slices are recognised by their element type (results of the call, or fields of the
+				// one object it returns), never by position
+				fromSet := func(call *ssa.Call, typ string) bool {
+					for _, a := range call.Call.Args {
+						if set.role(a) == "set" {
+							return true // the callee is handed the whole result
+						}
+					}
+					a := argOfType(&call.Call, typ)
+					return a != nil && set.role(a) == typ
+				}
+				elemOf := func(v ssa.Value, typ string) (ssa.Value, bool) {
+					ld, ok := v.(*ssa.UnOp)
+					if !ok || ld.Op != token.MUL {
+						return nil, false
+					}
+					ia, ok := ld.X.(*ssa.IndexAddr)
+					if !ok || set.role(ia.X) != typ {
+						return nil, false
+					}
+					return ia.Index, true
+				}
+				for _, call := range c.allCallsOf("buildMergedDocVals") {
+					if !fromSet(call, segSliceType) || !fromSet(call, tablesType) {
 						probs = append(probs, "buildMergedDocVals is not given the (segmentsInFocus, newDocNums) pair of the same setupActiveForField result")
 					}
 				}
-				for _, call := range callsOf(pm, "mergeTermFreqNormLocs") {
-					if ld, ok := call.Call.Args[2].(*ssa.UnOp); !ok || rootParam(ld.X) != ssa.Value(parts[0]) {
+				for _, call := range c.allCallsOf("mergeTermFreqNormLocs") {
+					given := false
+					for _, a := range call.Call.Args {
+						if _, ok := elemOf(a, tablesType); ok {
+							given = true
+						}
+					}
+					if !given {
 						probs = append(probs, "mergeTermFreqNormLocs is not given newDocNums[itrI] of the filtered slices")
 					}
 				}
-				for _, call := range callsOf(pm, "(*Dictionary).postingsListFromOffset") {
-					recv, ok1 := call.Call.Args[0].(*ssa.UnOp)
-					exc, ok2 := call.Call.Args[2].(*ssa.UnOp)
-					if !ok1 || !ok2 || rootParam(recv.X) != ssa.Value(parts[2]) || rootParam(exc.X) != ssa.Value(parts[1]) {
+				for _, call := range c.allCallsOf("(*Dictionary).postingsListFromOffset") {
+					if call.Parent() != sa[0].Parent() && call.Parent() != pm {
+						continue // the term-cardinality loop is CHUNK-AGREE's
+					}
+					di, ok1 := elemOf(call.Call.Args[0], dictsType)
+					xi, ok2 := elemOf(argOfType(&call.Call, roaringBitmapPtr), dropsSliceType)
+					if !ok1 || !ok2 {
 						probs = append(probs, "postings are not opened with dicts[itrI] and drops[itrI] of the same filtered slices")
-					} else if exprSig(recv.X.(*ssa.IndexAddr).Index, 0) != exprSig(exc.X.(*ssa.IndexAddr).Index, 0) {
+					} else if exprSig(di, 0) != exprSig(xi, 0) {
 						probs = append(probs, "dicts and drops are indexed by different iterator indexes")
 					}
 				}
-				for _, call := range callsOf(pm, "prepareNewTerm") {
-					a := call.Call.Args
-					if a[len(a)-2] != ssa.Value(parts[2]) || a[len(a)-1] != ssa.Value(parts[1]) {
+				for _, call := range c.allCallsOf("prepareNewTerm") {
+					if !fromSet(call, dictsType) || !fromSet(call, dropsSliceType) {
 						probs = append(probs, "prepareNewTerm is not given the filtered (dicts, drops)")
 					}
 				}
@@ -1039,43 +1190,67 @@ func init() {
 			// mergeFields: same=false decided for every (segment, field) pair
 			mf := c.MustFn("mergeFields")
 			key = "mergeFields/compares-all"
-			var cmp *ssa.BasicBlock
-			for _, b := range mf.Blocks {
-				for _, ins := range b.Instrs {
-					if bin, ok := ins.(*ssa.BinOp); ok && bin.Op == token.NEQ {
-						s := exprSig(bin, 0)
-						if strings.Contains(s, "len(") && strings.Count(s, "len(") == 2 {
-							cmp = b
+			// the comparison may sit in mergeFields or in helpers it is split into; what counts:
+			// a length comparison of two field lists and an element comparison exist, and nothing but
+			// loops (and the test that there are segments at all) decides whether they are reached
+			type found struct {
+				fn  *ssa.Function
+				ins ssa.Instruction
+			}
+			var lenCmp, elemCmp *found
+			chainGuard := ""
+			isStrList := func(v ssa.Value) bool { return v.Type().String() == "[]string" }
+			var scan func(f *ssa.Function, depth int, guard string)
+			scan = func(f *ssa.Function, depth int, guard string) {
+				for _, b := range f.Blocks {
+					for _, ins := range b.Instrs {
+						switch x := ins.(type) {
+						case *ssa.BinOp:
+							if x.Op != token.NEQ && x.Op != token.EQL {
+								continue
+							}
+							lx, nx, okx := lenOrCapOf(x.X)
+							ly, ny, oky := lenOrCapOf(x.Y)
+							if okx && oky && nx == "len" && ny == "len" && isStrList(lx) && isStrList(ly) && lenCmp == nil {
+								lenCmp = &found{f, x}
+								chainGuard = guard
+								if g := segGuard(x); g != "" {
+									chainGuard = g
+								}
+							}
+							isElem := func(v ssa.Value) bool {
+								ld, ok := v.(*ssa.UnOp)
+								if !ok || ld.Op != token.MUL {
+									return false
+								}
+								ia, ok := ld.X.(*ssa.IndexAddr)
+								return ok && isStrList(ia.X)
+							}
+							if x.X.Type().String() == "string" && (isElem(x.X) || isElem(x.Y)) && elemCmp == nil {
+								elemCmp = &found{f, x}
+							}
+						case *ssa.Call:
+							if sc := x.Call.StaticCallee(); sc != nil && c.inRoot(sc) && sc.Blocks != nil && depth < 2 && sc != f {
+								g := guard
+								if g == "" {
+									g = segGuard(x)
+								}
+								scan(sc, depth+1, g)
+							}
 						}
 					}
 				}
 			}
-			if cmp == nil {
+			scan(mf, 0, "")
+			switch {
+			case lenCmp == nil:
 				r.undecided(key, "mergeFields", c.pos(mf.Pos()), "the length comparison with the first segment's field list was not found")
-			} else {
-				// cmp block must be the unconditional body entry of the inner loop: its idom is a loop header whose body entry it is,
-				// and that header's idom chain reaches the outer loop header through unconditional blocks only
-				ok := true
-				why := ""
-				inner := cmp.Idom()
-				if inner == nil || !isLoopHeader(inner) || inner.Succs[0] != cmp {
-					ok, why = false, "the comparison is not the first thing done for every field"
-				} else {
-					// between outer header and inner header: only unconditional flow
-					for x := inner.Idom(); x != nil; x = x.Idom() {
-						if isLoopHeader(x) {
-							break
-						}
-						if _, isIf := x.Instrs[len(x.Instrs)-1].(*ssa.If); isIf {
-							ok, why = false, "some segments are skipped before their field list is compared (conditional at "+c.pos(x.Instrs[len(x.Instrs)-1].Pos())+")"
-						}
-					}
-				}
-				if ok {
-					r.ok(key, "mergeFields", c.pos(cmp.Instrs[0].Pos()), "every field of every segment is compared with the first segment's list")
-				} else {
-					r.bad(key, "mergeFields", c.pos(cmp.Instrs[0].Pos()), why)
-				}
+			case elemCmp == nil:
+				r.undecided(key, "mergeFields", c.pos(mf.Pos()), "the element-wise comparison with the first segment's field list was not found")
+			case chainGuard != "":
+				r.bad(key, "mergeFields", c.pos(lenCmp.ins.Pos()), "some segments are skipped before their field list is compared (only when "+chainGuard+")")
+			default:
+				r.ok(key, "mergeFields", c.pos(lenCmp.ins.Pos()), "every field of every segment is compared with the first segment's list")
 			}
 		},
 	})
@@ -1329,4 +1504,245 @@ func bothEncodersResized(fn *ssa.Function, gcs *ssa.Call) []string {
 		bound = b
 	}
 	return probs
+}
+
+// activeSet: the result of one setupActiveForField call - five parallel
+// slices, returned as separate results or as the fields of one object.
+type activeSet struct {
+	call *ssa.Call
+	obj  ssa.Value
+	c    *Ctx
+}
+
+func newActiveSet(call *ssa.Call) *activeSet {
+	a := &activeSet{call: call}
+	for _, ex := range tupleParts(call) {
+		t := ex.Type()
+		if p, ok := t.Underlying().(*types.Pointer); ok {
+			t = p.Elem()
+		}
+		if _, ok := t.Underlying().(*types.Struct); ok {
+			a.obj = ex
+		}
+	}
+	return a
+}
+
+// role: "set" for the object itself, the slice type for one of its slices, "" otherwise.
+func (a *activeSet) role(v ssa.Value) string {
+	if v == nil {
+		return ""
+	}
+	if a.obj != nil && v == a.obj {
+		return "set"
+	}
+	if p, ok := v.(*ssa.Parameter); ok && a.c != nil {
+		// handed down from the function that made the call
+		if up := a.c.traceParamUp(p); up != v {
+			return a.role(up)
+		}
+		return ""
+	}
+	switch x := v.(type) {
+	case *ssa.Extract:
+		if x.Tuple == ssa.Value(a.call) {
+			if _, ok := x.Type().Underlying().(*types.Slice); ok {
+				return x.Type().String()
+			}
+		}
+	case *ssa.UnOp:
+		if fa, ok := x.X.(*ssa.FieldAddr); ok && x.Op == token.MUL && a.obj != nil && fa.X == a.obj {
+			return x.Type().String()
+		}
+	case *ssa.Field:
+		if a.obj != nil && x.X == a.obj {
+			return x.Type().String()
+		}
+	}
+	return ""
+}
+
+// sliceElemIndex: v is a load of X[i] with X of the given slice type: i.
+func sliceElemIndex(v ssa.Value, typ string) (ssa.Value, bool) {
+	ld, ok := v.(*ssa.UnOp)
+	if !ok || ld.Op != token.MUL {
+		return nil, false
+	}
+	ia, ok := ld.X.(*ssa.IndexAddr)
+	if !ok || ia.X.Type().String() != typ {
+		return nil, false
+	}
+	return ia.Index, true
+}
+
+// accumulatorOf follows a value to the loop-carried accumulator it is the
+// final value of: up through parameters (unique call site) and down through
+// the result of an in-package helper.
+func (c *Ctx) accumulatorOf(v ssa.Value) ssa.Value {
+	for depth := 0; depth < 6; depth++ {
+		v = stripConv(v)
+		switch x := v.(type) {
+		case *ssa.Parameter:
+			u := c.traceParamUp(x)
+			if u == v {
+				return v
+			}
+			v = u
+		case *ssa.Extract:
+			call, ok := x.Tuple.(*ssa.Call)
+			if !ok {
+				return v
+			}
+			sc := call.Call.StaticCallee()
+			if sc == nil || !c.inRoot(sc) || sc.Blocks == nil {
+				return v
+			}
+			var res ssa.Value
+			n := 0
+			for _, b := range sc.Blocks {
+				if ret, ok := b.Instrs[len(b.Instrs)-1].(*ssa.Return); ok && x.Index < len(ret.Results) {
+					if _, isConst := ret.Results[x.Index].(*ssa.Const); !isConst && ret.Results[x.Index] != res {
+						res = ret.Results[x.Index]
+						n++
+					}
+				}
+			}
+			if n != 1 {
+				return v
+			}
+			v = res
+		default:
+			return v
+		}
+	}
+	return v
+}
+
+// reachesWritePostings: bitmap value b of function f is the bitmap handed to
+// writePostings, directly or through in-package helpers.
+func (c *Ctx) reachesWritePostings(f *ssa.Function, b ssa.Value, depth int) bool {
+	if depth > 3 || b == nil {
+		return false
+	}
+	for _, blk := range f.Blocks {
+		for _, ins := range blk.Instrs {
+			call, ok := ins.(*ssa.Call)
+			if !ok {
+				continue
+			}
+			sc := call.Call.StaticCallee()
+			if sc == nil || !c.inRoot(sc) {
+				continue
+			}
+			for i, a := range call.Call.Args {
+				if a != b || i >= len(sc.Params) {
+					continue
+				}
+				if fnName(sc) == "writePostings" {
+					if sc.Params[i] == paramOfType(sc, roaringBitmapPtr) {
+						return true
+					}
+				} else if sc.Blocks != nil && c.reachesWritePostings(sc, sc.Params[i], depth+1) {
+					return true
+				}
+			}
+		}
+	}
+	return false
+}
+
+// withHelpers visits fn and the in-package functions it calls statically (to
+// the given depth), each with the substitution parameter -> argument of the
+// call that reaches it (arguments that are themselves substituted parameters
+// are resolved).  A helper called from several sites is visited per site.
+func (c *Ctx) withHelpers(fn *ssa.Function, depth int, visit func(f *ssa.Function, subst map[*ssa.Parameter]ssa.Value)) {
+	var rec func(f *ssa.Function, subst map[*ssa.Parameter]ssa.Value, d int, stack map[*ssa.Function]bool)
+	rec = func(f *ssa.Function, subst map[*ssa.Parameter]ssa.Value, d int, stack map[*ssa.Function]bool) {
+		visit(f, subst)
+		if d == 0 {
+			return
+		}
+		stack[f] = true
+		for _, b := range f.Blocks {
+			for _, ins := range b.Instrs {
+				ci, ok := ins.(ssa.CallInstruction)
+				if !ok {
+					continue
+				}
+				sc := ci.Common().StaticCallee()
+				if sc == nil || !c.inRoot(sc) || sc.Blocks == nil || stack[sc] {
+					continue
+				}
+				sub := map[*ssa.Parameter]ssa.Value{}
+				for i, a := range ci.Common().Args {
+					if i >= len(sc.Params) {
+						break
+					}
+					if p, ok := a.(*ssa.Parameter); ok && subst[p] != nil {
+						a = subst[p]
+					}
+					sub[sc.Params[i]] = a
+				}
+				rec(sc, sub, d-1, stack)
+			}
+		}
+		delete(stack, f)
+	}
+	rec(fn, nil, depth, map[*ssa.Function]bool{})
+}
+
+// segGuard: a content condition (contentGuard) governing ins other than
+// "there are segments at all" (a length test of a segment slice).
+func segGuard(ins ssa.Instruction) string {
+	for b := ins.Block(); b != nil; b = b.Idom() {
+		idom := b.Idom()
+		if idom == nil {
+			return ""
+		}
+		ifi, ok := idom.Instrs[len(idom.Instrs)-1].(*ssa.If)
+		if !ok || len(b.Preds) != 1 || isLoopHeader(idom) {
+			continue
+		}
+		pol := idom.Succs[0] == b
+		if !pol && idom.Succs[1] != b {
+			continue
+		}
+		if bin, ok := ifi.Cond.(*ssa.BinOp); ok {
+			if isNilConst(bin.X) || isNilConst(bin.Y) {
+				continue
+			}
+			if x, name, ok := lenOrCapOf(bin.X); ok && name == "len" && x.Type().String() == segSliceType {
+				continue
+			}
+			if x, name, ok := lenOrCapOf(bin.Y); ok && name == "len" && x.Type().String() == segSliceType {
+				continue
+			}
+		}
+		return condCanon(ifi.Cond, pol, nil)
+	}
+	return ""
+}
+
+// callsOfFull: the static calls in fn of the function with that full name (package path included).
+func callsOfFull(fn *ssa.Function, full string) []*ssa.Call {
+	var out []*ssa.Call
+	for _, b := range fn.Blocks {
+		for _, ins := range b.Instrs {
+			if call, ok := ins.(*ssa.Call); ok {
+				if sc := call.Call.StaticCallee(); sc != nil && funcFullName(sc) == full {
+					out = append(out, call)
+				}
+			}
+		}
+	}
+	return out
+}
+
+// allCallsOf: the static calls of the named function in all source functions.
+func (c *Ctx) allCallsOf(name string) []*ssa.Call {
+	var out []*ssa.Call
+	for _, f := range c.srcFns {
+		out = append(out, callsOf(f, name)...)
+	}
+	return out
 }
